@@ -2,6 +2,9 @@ package main
 
 import (
 	"encoding/json"
+	"os"
+	"os/exec"
+	"path/filepath"
 	"strconv"
 	"strings"
 
@@ -118,6 +121,54 @@ func replayOther(res *Result, rf replayFile, text string) {
 		if cerr == nil {
 			if msg := lexableSQL(lexSQL(sql, "std")); msg != "" {
 				res.violate(Violation{Property: rf.Property, Kind: v.Kind, Reason: msg})
+			}
+		}
+	case "cli_output", "cli_overlong_line", "cli_unreadable_file":
+		bin := os.Getenv("VERIF_CLI_BIN")
+		if bin == "" {
+			fatal("VERIF_CLI_BIN not set")
+		}
+		dir, _ := os.MkdirTemp("", "clireplay")
+		defer os.RemoveAll(dir)
+		switch v.Kind {
+		case "cli_unreadable_file":
+			if exec.Command(bin, filepath.Join(dir, "does-not-exist.pql")).Run() == nil {
+				res.violate(Violation{Property: "C16", Kind: v.Kind, Reason: "exit status 0"})
+			}
+		case "cli_overlong_line":
+			long := "let v1 = 1;\nT1 | where a == v1;\nT2 | where s == '" + strings.Repeat("x", 70000) + "';\nT3 | count;\n"
+			mode, _ := extra["mode"].(float64)
+			r := runCLI(bin, dir, long, int(mode), 1)
+			third, _ := pql.Compile("T3 | count")
+			if !strings.Contains(r.stdout, third) && (r.exit == 0 || nonEmptyLines(r.stderr) == 0) {
+				res.violate(Violation{Property: "C16", Kind: v.Kind, Reason: "input dropped silently"})
+			}
+		default:
+			mode, _ := extra["mode"].(float64)
+			want, _ := extra["expected_stdout"].(string)
+			fails, _ := extra["real_failures"].(float64)
+			r := runCLI(bin, dir, text, int(mode), 1)
+			if r.stdout != want || (fails > 0 && r.exit == 0) || nonEmptyLines(r.stderr) < int(fails) ||
+				(fails == 0 && r.exit != 0 && strings.Contains(v.Reason, "no statement failed")) {
+				res.violate(Violation{Property: "C16", Kind: v.Kind, Reason: "same output again"})
+			}
+		}
+	case "data_race", "concurrent_result", "worker_crashed", "worker_hung", "hook_log_rejected":
+		// concurrency findings are re-examined by running bursts again in a -race build
+		raceBin := os.Getenv("VERIF_RACE_BIN")
+		if raceBin == "" {
+			fatal("VERIF_RACE_BIN not set")
+		}
+		dir, _ := os.MkdirTemp("", "concreplay")
+		defer os.RemoveAll(dir)
+		for try := 0; try < 6 && res.NViolations == 0; try++ {
+			cmd := exec.Command(raceBin, "conc-worker", "--out", filepath.Join(dir, "o.json"), "--seed", strconv.Itoa(try+1), "--bursts", "6", "--fresh", "1")
+			cmd.Env = append(os.Environ(), "GORACE=log_path="+filepath.Join(dir, "race")+" exitcode=0 halt_on_error=0")
+			err := cmd.Run()
+			ms, _ := filepath.Glob(filepath.Join(dir, "race.*"))
+			ob, _ := os.ReadFile(filepath.Join(dir, "o.json"))
+			if err != nil || len(ms) > 0 || strings.Contains(string(ob), "\"problem\"") {
+				res.violate(Violation{Property: "C14", Kind: v.Kind, Reason: "concurrent bursts fail again"})
 			}
 		}
 	case "statement_shape":
